@@ -38,6 +38,7 @@ type rv struct {
 	elems  []rv
 	keys   []string
 	unq    bool // text layout prints it without quotes (string-like)
+	either bool // a string-valued value that a tree may treat as a string field (unquoted in the text layout) or as a reflected value (the compact JSON, quoted): the statement allows both
 	rawTok []string
 }
 
@@ -262,7 +263,9 @@ func fieldAlphabet() []fieldCase {
 		add(mk.name+"(named float with MarshalJSON)", mk.mk(percent(0.125)), raw(percent(0.125)))
 		add(mk.name+"(json.Number)", mk.mk(json.Number("12.50")), raw(json.Number("12.50")))
 		add(mk.name+"(plain named int)", mk.mk(plainID(77)), raw(plainID(77)))
-		add(mk.name+"(plain named string)", mk.mk(plainName("n\"q")), raw(plainName("n\"q")))
+		pn := raw(plainName("n\"q"))
+		pn.either = true
+		add(mk.name+"(plain named string)", mk.mk(plainName("n\"q")), pn)
 	}
 	add("String(12 KB, beyond the buffer-reuse cap)", log.String("big", strings.Repeat("x", 12000)), str(strings.Repeat("x", 12000)))
 	add("Array(custom)", log.Array("arr", arrEnc{func(e log.Encoder) {
@@ -629,21 +632,42 @@ func encCheck(prop string) func(c layoutCase) (string, []Violation, int) {
 				break
 			}
 		}
-		var toks []string
-		if c.Ctx&1 != 0 {
-			toks = append(toks, "ctx-7f")
-		}
+		// (values marked `either` may be printed quoted or unquoted: every combination is an accepted line)
+		var eitherIdx []int
 		for i := range keys {
-			val := body[i].raw
-			if vals[i].unq && strings.HasPrefix(val, `"`) {
-				val = val[1 : len(val)-1]
+			if vals[i].either && strings.HasPrefix(body[i].raw, `"`) {
+				eitherIdx = append(eitherIdx, i)
 			}
-			toks = append(toks, body[i].rawKey+"="+val)
 		}
-		want := "[WARN][2025-06-01T09:08:07.006][dir/file.go:42] _enc_tag||" + strings.Join(toks, "||") + "\n"
+		lineFor := func(mask int) string {
+			var toks []string
+			if c.Ctx&1 != 0 {
+				toks = append(toks, "ctx-7f")
+			}
+			for i := range keys {
+				val := body[i].raw
+				strip := vals[i].unq
+				for b, ei := range eitherIdx {
+					if ei == i {
+						strip = mask&(1<<b) != 0
+					}
+				}
+				if strip && strings.HasPrefix(val, `"`) {
+					val = val[1 : len(val)-1]
+				}
+				toks = append(toks, body[i].rawKey+"="+val)
+			}
+			return "[WARN][2025-06-01T09:08:07.006][dir/file.go:42] _enc_tag||" + strings.Join(toks, "||") + "\n"
+		}
+		want := lineFor(0)
 		alt := want
 		if c.Ctx&1 != 0 && len(keys) == 0 {
 			alt = "[WARN][2025-06-01T09:08:07.006][dir/file.go:42] _enc_tag||ctx-7f||\n" // tolerated: separator after the context string
+		}
+		for mask := 1; mask < 1<<len(eitherIdx); mask++ {
+			if ts == lineFor(mask) {
+				alt = ts
+			}
 		}
 		if ts != want && ts != alt {
 			fail("C08", "text-differs-from-json-tokens", fmt.Sprintf("text line %q, expected from the JSON tokens %q", ts, want))
